@@ -14,6 +14,7 @@ Oracle    : per-iteration monitors record the compared values; the stop
 """
 from .. import configs, runcheck
 
+USES_KNOWN_CASES = True
 LEVEL = "exploration"
 RULE = (
     "Real runs of both samplers with generated stopping configurations "
